@@ -30,7 +30,7 @@ def run_demo(src, wt):
                 for tok in v.replace(",", " ").split():
                     if tok.endswith("_test.go") or tok.endswith("/"):
                         import re
-                        rel = re.sub(r"^(/var/tmp/seed[23]?-C\d+/|<worktree>/|<repo|root>/)", "", tok)
+                        rel = re.sub(r"^(/var/tmp/seed\d?-C\d+/|<worktree>/|<repo|root>/)", "", tok)
                         if rel.startswith("/") or rel == "demo_test.go":
                             rel = None
         pkg = None
